@@ -120,9 +120,10 @@ Proof.
   assert (D := fun x => NoDup_app_disj _ (fst b) (flat_map fst bs) x ND).
   assert (F : forall h, In h bs -> In id (fst h) -> In id (flat_map fst bs)).
   { intros h Hh Hih. apply in_flat_map. exists h. auto. }
-  destruct Hg as [->|Hg]; destruct Hg' as [->|Hg']; auto.
-  - exfalso. apply (D id); auto.
-  - exfalso. apply (D id); auto.
+  destruct Hg as [Hg|Hg]; destruct Hg' as [Hg'|Hg'].
+  - congruence.
+  - subst b. exfalso. apply (D id); auto. apply (F g'); auto.
+  - subst b. exfalso. apply (D id); auto. apply (F g); auto.
   - apply (IH g g' id); auto. eapply NoDup_app_r; eauto.
 Qed.
 
@@ -234,7 +235,7 @@ Lemma Inv_push_atom : forall t id tg', Inv t -> In id mids -> ~ In id (atoms_of 
 Proof.
   intros t id tg' [NZ ND SRC GRP] MI NI G.
   constructor; simpl; auto.
-  - apply nozero_snoc; auto. intros c [].
+  - apply nozero_snoc; [exact NZ | intros c []].
   - rewrite atoms_of_snoc_atom. apply NoDup_snoc; auto.
   - intros x Hx. rewrite atoms_of_snoc_atom in Hx. apply in_app_or in Hx. destruct Hx as [Hx|[<-|[]]]; auto.
 Qed.
@@ -262,7 +263,10 @@ Lemma grp_ok_unrelated : forall nodes tg tg' id g, In g groups ->
 Proof.
   intros nodes tg tg' id g Hg NI NE EA [H1 H2]. unfold grp_ok.
   rewrite cnt_other by auto. rewrite atoms_of_snoc_atom. rewrite EA.
-  rewrite (in_snoc_other (atoms_of nodes) id (snd g)) by auto. auto.
+  assert (IE := in_snoc_other (atoms_of nodes) id (snd g) (fun E => NE (eq_sym E))).
+  split. { rewrite IE. exact H1. }
+  destruct (assoc (snd g) tg) as [gs|]; auto.
+  destruct H2 as [H2 H3]. split; auto. rewrite IE. exact H3.
 Qed.
 
 Theorem Inv_add_atom : forall t id t' k, Inv t -> In id mids -> t_add_atom ai t id = (t', k) -> Inv t'.
@@ -271,7 +275,7 @@ Proof.
   destruct (find_node (t_nodes t) (NAtom id) 1) as [j|] eqn:F.
   { inversion H; subst. exact I. }
   assert (NI := find_atom_None _ _ F).
-  unfold push_node in H. simpl in H.
+  unfold push_node in H. cbn [t_nodes t_groups] in H.
   assert (NEid : forall g, In g groups -> id <> snd g).
   { intros g Hg E. subst id. apply (W3 g Hg). exact MI. }
   destruct (in_dec N.eq_dec id (flat_map fst groups)) as [HM|HM].
@@ -293,20 +297,18 @@ Proof.
     destruct (g_extra gs0) as [ke|] eqn:GE.
     + (* extra atom already there *)
       inversion H; subst t' k. clear H. apply Inv_push_atom; auto.
-      intros g Hg. destruct (list_eq_dec N.eq_dec (fst g) (fst g0)) as [EQ|NEQ]; [destruct (N.eq_dec (snd g) (snd g0)) as [EQ2|NEQ2]|].
-      * assert (g = g0) by (destruct g, g0; simpl in *; congruence). subst g.
+      intros g Hg. destruct (N.eq_dec (snd g) (snd g0)) as [EQ2|NEQ2].
+      * assert (g = g0) by (apply (NoDup_map_inj_in _ _ snd groups g g0); auto). subst g.
         unfold grp_ok. rewrite C0, atoms_of_snoc_atom, assoc_set_same. simpl.
-        rewrite (in_snoc_other _ id (snd g0)) by (intro E; symmetry in E; revert E; apply NEid; auto).
+        assert (IE := in_snoc_other (atoms_of (t_nodes t)) id (snd g0) (fun E => NEid g0 Hg0 (eq_sym E))).
         assert (Hin : In (snd g0) (atoms_of (t_nodes t))).
-        { destruct (in_dec N.eq_dec (snd g0) (atoms_of (t_nodes t))); auto. apply X0 in n. discriminate. }
+        { destruct (in_dec N.eq_dec (snd g0) (atoms_of (t_nodes t))) as [i|n]; auto. apply X0 in n. discriminate. }
         assert (2 <= cntD (t_nodes t) g0) by (apply G0a; auto).
-        split. split; intros; auto; lia. split. rewrite app_length. simpl. lia.
-        split. discriminate. intros Hn. contradiction.
-      * destruct (OTHER g Hg) as [O1 O2]. { intro; subst; auto. }
-        apply (grp_ok_unrelated _ (t_groups t)); auto. intro E; symmetry in E; revert E; apply NEid; auto.
-        apply assoc_set_other; auto.
-      * destruct (OTHER g Hg) as [O1 O2]. { intro; subst; auto. }
-        apply (grp_ok_unrelated _ (t_groups t)); auto. intro E; symmetry in E; revert E; apply NEid; auto.
+        split. { rewrite IE. split; intros; auto; lia. }
+        split. { rewrite app_length. simpl. lia. }
+        split. discriminate. intros Hn. exfalso. apply Hn. apply IE. exact Hin.
+      * destruct (OTHER g Hg) as [O1 O2]. { intro; subst; apply NEQ2; reflexivity. }
+        apply (grp_ok_unrelated _ (t_groups t)); auto.
         apply assoc_set_other; auto.
     + assert (NX : ~ In (snd g0) (atoms_of (t_nodes t))) by (apply X0; auto).
       destruct (1 <? length (g_members gs0 ++ [S (length (t_nodes t))])) eqn:LT.
@@ -320,7 +322,7 @@ Proof.
         assert (EA : atoms_of ((t_nodes t ++ [NAtom id]) ++ [NAtom (snd g0)]) = (atoms_of (t_nodes t) ++ [id]) ++ [snd g0]).
         { now rewrite !atoms_of_snoc_atom. }
         constructor; simpl.
-        -- apply nozero_snoc. apply nozero_snoc; auto. intros c []. intros c [].
+        -- apply nozero_snoc; [apply nozero_snoc; [exact NZ | intros c []] | intros c []].
         -- rewrite EA. apply NoDup_snoc. apply NoDup_snoc; auto.
            intro Hin. apply in_app_or in Hin. destruct Hin as [Hin|[E|[]]]; auto. revert E. apply NEid; auto.
         -- intros x Hx. rewrite EA in Hx. apply in_app_or in Hx. destruct Hx as [Hx|[<-|[]]].
@@ -336,13 +338,15 @@ Proof.
               ** split; intros; auto. apply in_or_app. right. left; auto.
               ** split. rewrite app_length. simpl. lia. split. discriminate.
                  intros Hn. exfalso. apply Hn. apply in_or_app. right. left; auto.
-           ++ destruct (OTHER g Hg) as [O1 O2]. { intro; subst; auto. }
+           ++ destruct (OTHER g Hg) as [O1 O2]. { intro; subst; apply NEQ2; reflexivity. }
               rewrite cnt_other by auto. rewrite assoc_set_other by auto.
               destruct (GRP g Hg) as [Ga Gb].
               assert (INE : In (snd g) ((atoms_of (t_nodes t) ++ [id]) ++ [snd g0]) <-> In (snd g) (atoms_of (t_nodes t))).
               { rewrite (in_snoc_other _ (snd g0) (snd g)) by auto.
                 apply in_snoc_other. intro E; symmetry in E; revert E; apply NEid; auto. }
-              rewrite INE. auto.
+              split. { rewrite INE. exact Ga. }
+              destruct (assoc (snd g) (t_groups t)) as [gs|]; auto.
+              destruct Gb as [Gb1 Gb2]. split; auto. rewrite INE. exact Gb2.
       * (* first member *)
         inversion H; subst t' k. clear H.
         rewrite app_length in LT. simpl in LT. apply Nat.ltb_ge in LT.
@@ -354,15 +358,14 @@ Proof.
            rewrite (in_snoc_other _ id (snd g0)) by (intro E; symmetry in E; revert E; apply NEid; auto).
            split. split; intros; try lia. contradiction.
            split. rewrite app_length. simpl. lia. split; auto.
-        -- destruct (OTHER g Hg) as [O1 O2]. { intro; subst; auto. }
-           apply (grp_ok_unrelated _ (t_groups t)); auto. intro E; symmetry in E; revert E; apply NEid; auto.
+        -- destruct (OTHER g Hg) as [O1 O2]. { intro; subst; apply NEQ2; reflexivity. }
+           apply (grp_ok_unrelated _ (t_groups t)); auto.
            apply assoc_set_other; auto.
   - (* an independent fact *)
     rewrite (ai_group_none id HM) in H. inversion H; subst t' k. clear H.
     apply Inv_push_atom; auto.
     intros g Hg. destruct I as [NZ ND SRC GRP]. apply (grp_ok_unrelated _ (t_groups t)); auto.
-    + intro Hi. apply HM. apply in_flat_map. exists g. auto.
-    + intro E; symmetry in E; revert E; apply NEid; auto.
+    intro Hi. apply HM. apply in_flat_map. exists g. auto.
 Qed.
 
 (* ------------------------------------------------------------------ compound nodes *)
@@ -393,7 +396,7 @@ Proof.
   { inversion H; subst; auto. }
   set (c2 := dedupe (keys_to_Z (filter (fun x => negb (key_eqb x (if isand then Some 0%Z else None))) content)) []) in *.
   assert (NZ2 : forall x, In x c2 -> x <> 0%Z).
-  { intros x Hx. unfold c2 in Hx. apply dedupe_nil_In in Hx. destruct isand.
+  { intros x Hx. unfold c2 in Hx. apply (proj1 (dedupe_nil_In _ _)) in Hx. destruct isand; cbv iota in Hx, E1.
     - eapply keys_and_nz; eauto.
     - eapply keys_or_nz; eauto. }
   destruct c2 as [|x [|y l]] eqn:EC.
@@ -445,15 +448,17 @@ Qed.
 Lemma bc_top_inv : forall is_ev ns acc t m ks t' m' ks', Inv t -> acc = Some (t, m, ks) ->
     fold_left (bc_top tc um F ai is_ev) ns acc = Some (t', m', ks') -> Inv t'.
 Proof.
-  induction ns as [|n ns IH]; intros acc t m ks t' m' ks' I EA H; simpl in H.
-  - subst acc. inversion H; subst; auto.
-  - subst acc. simpl in H. destruct n as [c|].
-    + destruct (is_prob (Some c)).
-      * destruct (bc (S (S (length F))) tc um F ai is_ev t m (if is_ev then Z.abs c else c) []) as [r|] eqn:B.
-        -- eapply (IH _ (r_tgt r)); [|reflexivity|exact H]. eapply bc_inv; eauto.
-        -- rewrite bc_top_none in H. discriminate.
-      * eapply IH; eauto.
-    + eapply IH; eauto.
+  induction ns as [|n ns IH]; intros acc t m ks t' m' ks' I EA H.
+  - subst acc. simpl in H. inversion H; subst; auto.
+  - subst acc. cbn [fold_left] in H.
+    destruct (bc_top tc um F ai is_ev (Some (t, m, ks)) n) as [[[t1 m1] ks1]|] eqn:BT.
+    + eapply (IH _ t1); [|reflexivity|exact H].
+      unfold bc_top in BT. destruct n as [c|]; [destruct (is_prob (Some c))|].
+      * destruct (bc (S (S (length F))) tc um F ai is_ev t m (if is_ev then Z.abs c else c) []) as [r|] eqn:B; [|discriminate].
+        inversion BT; subst. eapply bc_inv; eauto.
+      * inversion BT; subst; auto.
+      * inversion BT; subst; auto.
+    + rewrite bc_top_none in H. discriminate.
 Qed.
 
 Theorem break_cycles_inv : forall labeled evidence D ks1 ks2,
@@ -468,3 +473,119 @@ Proof.
 Qed.
 
 End Inv.
+
+(* ------------------------------------------------------------------ from the invariant to dag_ok *)
+Lemma NoDup_filter_c : forall (A : Type) (p : A -> bool) l, NoDup l -> NoDup (filter p l).
+Proof.
+  induction l as [|x l IH]; simpl; intros ND. constructor. inversion ND; subst.
+  destruct (p x); auto. constructor; auto. intro H. apply filter_In in H. tauto.
+Qed.
+
+Lemma NoDup_app_intro : forall (A : Type) (l1 l2 : list A), NoDup l1 -> NoDup l2 ->
+    (forall x, In x l1 -> In x l2 -> False) -> NoDup (l1 ++ l2).
+Proof.
+  induction l1 as [|y l1 IH]; simpl; intros l2 N1 N2 D; auto.
+  inversion N1; subst. constructor.
+  - intro H. apply in_app_or in H. destruct H as [H|H]; auto. apply (D y); auto.
+  - apply IH; auto. intros x H3 H4. apply (D x); auto.
+Qed.
+
+Lemma NoDup_map_filter : forall (A B : Type) (f : A -> B) (p : A -> bool) l, NoDup (map f l) -> NoDup (map f (filter p l)).
+Proof.
+  induction l as [|x l IH]; simpl; intros ND. constructor. inversion ND; subst.
+  destruct (p x); simpl; auto. constructor; auto. intro H. apply H1.
+  apply in_map_iff in H. destruct H as [y [E Hy]]. apply filter_In in Hy. rewrite <- E. apply in_map. tauto.
+Qed.
+
+Lemma lay_cases : forall D b x, In x (lay D b) -> In x (blockD D b) \/ (nontrivial D b = true /\ x = snd b).
+Proof.
+  intros D b x H. unfold lay in H. destruct (nontrivial D b); auto.
+  apply in_app_or in H. destruct H as [H|[<-|[]]]; auto.
+Qed.
+
+Lemma blockD_sub : forall D b x, In x (blockD D b) -> In x (fst b) /\ In x (atoms_of D).
+Proof. intros D b x H. unfold blockD in H. apply filter_In in H. destruct H as [H1 H2]. split; auto. apply inD_In; auto. Qed.
+
+Lemma NoDup_layout_gen : forall D bs, NoDup (flat_map fst bs) ->
+    (forall b, In b bs -> nontrivial D b = true -> ~ In (snd b) (flat_map fst bs)) ->
+    NoDup (map snd (filter (nontrivial D) bs)) -> NoDup (flat_map (lay D) bs).
+Proof.
+  intros D. induction bs as [|b r IH]; simpl; intros N1 FR N2. constructor.
+  assert (N1l := NoDup_app_l _ _ _ N1). assert (N1r := NoDup_app_r _ _ _ N1).
+  apply NoDup_app_intro.
+  - unfold lay. destruct (nontrivial D b) eqn:NT.
+    + apply NoDup_snoc. apply NoDup_filter_c; auto.
+      intro H. apply blockD_sub in H. apply (FR b (or_introl eq_refl) NT). apply in_or_app. left. tauto.
+    + apply NoDup_filter_c; auto.
+  - apply IH; auto.
+    + intros b' Hb' NT H. apply (FR b' (or_intror Hb') NT). apply in_or_app. right; auto.
+    + destruct (nontrivial D b); auto. simpl in N2. inversion N2; auto.
+  - intros x H1 H2. apply in_flat_map in H2. destruct H2 as [b' [Hb' H2]].
+    apply lay_cases in H1. apply lay_cases in H2.
+    assert (IN' : forall y, In y (fst b') -> In y (flat_map fst r)).
+    { intros y Hy. apply in_flat_map. exists b'. auto. }
+    destruct H1 as [H1|[NT1 E1]]; destruct H2 as [H2|[NT2 E2]].
+    + apply blockD_sub in H1. apply blockD_sub in H2. apply (NoDup_app_disj _ _ _ x N1); [tauto|apply IN'; tauto].
+    + apply blockD_sub in H1. subst x. apply (FR b' (or_intror Hb') NT2). apply in_or_app. left. tauto.
+    + apply blockD_sub in H2. subst x. apply (FR b (or_introl eq_refl) NT1). apply in_or_app. right. apply IN'. tauto.
+    + rewrite NT1 in N2. simpl in N2. inversion N2 as [|? ? Hnot Hrest]; subst. apply Hnot. rewrite <- E1, E2.
+      apply in_map. apply filter_In. auto.
+Qed.
+
+Lemma fact_trivial : forall D (x : N), nontrivial D ([x], 0%N) = false.
+Proof. intros. unfold nontrivial, blockD. simpl. destruct (inD D x); reflexivity. Qed.
+
+Lemma nontrivial_group : forall P D b, In b (blocks P) -> nontrivial D b = true -> In b (wp_groups P).
+Proof.
+  intros P D b Hb NT. unfold blocks in Hb. apply in_app_or in Hb. destruct Hb as [Hb|Hb]; auto.
+  apply in_map_iff in Hb. destruct Hb as [x [<- _]]. rewrite fact_trivial in NT. discriminate.
+Qed.
+
+Lemma NoDup_layout : forall P D, wf_src P -> NoDup (layout P D).
+Proof.
+  intros P D [W1 W2 W3 W4]. unfold layout. apply NoDup_layout_gen; auto.
+  - intros b Hb NT. apply W3. eapply nontrivial_group; eauto.
+  - unfold blocks. rewrite filter_app, map_app.
+    assert (E : filter (nontrivial D) (map (fun x : N => ([x], 0%N)) (wp_facts P)) = []).
+    { induction (wp_facts P) as [|x l IH]; simpl; auto. rewrite fact_trivial. exact IH. }
+    rewrite E. simpl. rewrite app_nil_r. apply NoDup_map_filter; auto.
+Qed.
+
+Theorem Inv_dag_ok : forall P t, wf_src P -> Inv P t -> dag_ok P (t_nodes t).
+Proof.
+  intros P t WF [NZ ND SRC GRP]. assert (NL := NoDup_layout P (t_nodes t) WF).
+  assert (I1 : forall id, In id (atoms_of (t_nodes t)) -> In id (layout P (t_nodes t))).
+  { intros id Hid. unfold layout. apply in_flat_map. destruct (SRC id Hid) as [HM|[g [Hg E]]].
+    - apply in_flat_map in HM. destruct HM as [b [Hb Hi]]. exists b. split; auto.
+      assert (In id (blockD (t_nodes t) b)). { unfold blockD. apply filter_In. split; auto. apply inD_In; auto. }
+      unfold lay. destruct (nontrivial (t_nodes t) b); auto. apply in_or_app. left; auto.
+    - exists g. split. unfold blocks. apply in_or_app. left; auto.
+      destruct (GRP g Hg) as [Ga _]. subst id. apply Ga in Hid.
+      unfold lay. assert (NT : nontrivial (t_nodes t) g = true) by (apply Nat.leb_le; exact Hid).
+      rewrite NT. apply in_or_app. right. left; auto. }
+  assert (I2 : forall id, In id (layout P (t_nodes t)) -> In id (atoms_of (t_nodes t))).
+  { intros id Hid. unfold layout in Hid. apply in_flat_map in Hid. destruct Hid as [b [Hb Hi]].
+    apply lay_cases in Hi. destruct Hi as [Hi|[NT E]].
+    - apply blockD_sub in Hi. tauto.
+    - assert (Hg := nontrivial_group P _ b Hb NT). destruct (GRP b Hg) as [Ga _]. subst id.
+      apply Ga. apply Nat.leb_le. exact NT. }
+  constructor; auto.
+  apply NoDup_Permutation; auto. intros x. split; auto.
+Qed.
+
+(* ------------------------------------------------------------------ the full composition *)
+Theorem pipeline_correct : forall tc use_memo P q e M D ks1 ks2,
+    wf_src P -> stratified (wp_graph P) -> (forall a, is_model (wp_graph P) a (M a)) ->
+    break_cycles_m tc use_memo (wp_graph P) (ai_of P) [q] e = Some (D, ks1, ks2) ->
+    pipeline tc use_memo P q e = Some (world_prob P M q e).
+Proof.
+  intros tc um P q e M D ks1 ks2 WF ST HM BC.
+  assert (C9 := break_cycles_correct tc um (wp_graph P) (ai_of P) [q] e D ks1 ks2 a0 (M a0) (HM a0) ST BC).
+  destruct C9 as [_ [F1 _]].
+  inversion F1 as [|? kq ? l' ? F1']; subst. inversion F1'; subst.
+  destruct (break_cycles_inv P (wf_ids P WF) (wf_extras P WF) (wf_fresh P WF) (wp_graph P) (wf_atoms P WF) tc um [q] e D [kq] ks2 BC)
+    as [t [ED IT]].
+  eapply pipeline_correct_ok; eauto.
+  - intros g Hg Hin. apply (wf_fresh P WF g Hg). apply (wf_atoms P WF). exact Hin.
+  - subst D. apply Inv_dag_ok; auto.
+Qed.
